@@ -263,12 +263,17 @@ SEEDS8 = {
     "C20-12": ("C20", ["C20"], "(as C20-9, written independently) split-view alarm hoisted above the old-size checks", "one request that is both stale/oversized in old size and a same-size fork"),
 }
 SEEDS2.update(SEEDS8)
+# round 9: twelve fresh agents for the properties that had ten stored changes; same brief as round 8
+SEEDS9 = {
+}
+SEEDS2.update(SEEDS9)
+ROUND9 = {'C01', 'C02', 'C03', 'C04', 'C05', 'C07', 'C08', 'C09', 'C10', 'C13', 'C15', 'C18'}
 ROUND5 = {'C01', 'C02', 'C03', 'C04', 'C05', 'C07', 'C08', 'C09', 'C10', 'C13', 'C15', 'C18'}
 SRC = {}
 for _sid in SEEDS2:
     _pid, _k = _sid.split("-")
     if int(_k) >= 11:
-        SRC[_sid] = f"/tmp/seed8/{_pid}/_out/{int(_k) - 10}"
+        SRC[_sid] = f"/tmp/seed9/{_pid}/_out/{int(_k) - 10}" if _pid in ROUND9 else f"/tmp/seed8/{_pid}/_out/{int(_k) - 10}"
         continue
     if int(_k) >= 9:
         SRC[_sid] = f"/tmp/seed7/{_pid}/_out/{int(_k) - 8}" if _pid in ROUND5 else f"/tmp/seed6/{_pid}/_out/{int(_k) - 8}"
